@@ -41,6 +41,7 @@ LN2 = float(np.log(2))
 def preload():
     import glotaran.builtin.megacomplexes.coherent_artifact.coherent_artifact_megacomplex  # noqa: F401
     import glotaran.builtin.megacomplexes.damped_oscillation.damped_oscillation_megacomplex  # noqa: F401
+    import glotaran.builtin.megacomplexes.pfid.pfid_megacomplex  # noqa: F401
     import glotaran.builtin.megacomplexes.spectral.spectral_megacomplex  # noqa: F401
 
 
@@ -68,6 +69,9 @@ def configs(tier, seed):
         out.append({"name": f"shape-{sh}", "kind": "shape", "shape": sh})
     for ax in ("inverted", "scaled", "plain"):
         out.append({"name": f"spectral-axis-{ax}", "kind": "axis", "axis": ax})
+    from harness import c07_pfid
+
+    out += c07_pfid.configs(tier)
     return out
 
 
@@ -88,27 +92,33 @@ MODS = [
 ]
 
 
+def erf_shim(x):
+    x = np.asarray(x)
+    if x.size == 0:
+        return np.zeros(x.shape, dtype=object)
+    if x.dtype != object:
+        from scipy.special import erf as _erf
+
+        return _erf(x)
+    out_ = SymArray(x.shape)
+    for i_ in np.ndindex(*x.shape):
+        v_ = x[i_]
+        if not hasattr(v_, "erf"):
+            raise core.Unsupported("error function of a non-symbolic object")
+        np.ndarray.__setitem__(out_, i_, v_.erf())
+    return out_
+
+
+
+def erf_shim_for(p):
+    return erf_shim
+
+
 def install(p):
     import glotaran.builtin.megacomplexes.coherent_artifact.coherent_artifact_megacomplex as ca
     import glotaran.builtin.megacomplexes.damped_oscillation.damped_oscillation_megacomplex as do
 
     install_numeric_shims(p, modules=MODS)
-    def erf_shim(x):
-        x = np.asarray(x)
-        if x.size == 0:
-            return np.zeros(x.shape, dtype=object)
-        if x.dtype != object:
-            from scipy.special import erf as _erf
-
-            return _erf(x)
-        out_ = SymArray(x.shape)
-        for i_ in np.ndindex(*x.shape):
-            v_ = x[i_]
-            if not hasattr(v_, "erf"):
-                raise core.Unsupported("error function of a non-symbolic object")
-            np.ndarray.__setitem__(out_, i_, v_.erf())
-        return out_
-
     p.set(do, "erf", erf_shim, "scipy.special.erf -> complex error function as a pair of uninterpreted functions of (re, im)")
     p.set(do, "calculate_damped_oscillation_matrix_no_irf", do.calculate_damped_oscillation_matrix_no_irf.py_func, "numba kernel -> its py_func")
     p.set(ca, "_calculate_coherent_artifact_matrix_on_index", ca._calculate_coherent_artifact_matrix_on_index.py_func, "numba kernel -> its py_func")
@@ -137,7 +147,15 @@ def run_config(cfg, rec):
     rec.assume_note("widths > 0; oscillation frequencies below the Nyquist fold-over of the time axis; exp/log/sin/cos uninterpreted "
                     "(exp(0)=1, log(1)=0, exp(-ln2 as float)=1/2 taken as exact)")
     core.Ctx.generic_models = False
-    {"osc": _run_osc, "artifact": _run_artifact, "shape": _run_shape, "axis": _run_axis, "osc_irf": _run_osc_irf, "osc_irf_full": _run_osc_irf_full}[cfg["kind"]](cfg, rec)
+    {"osc": _run_osc, "artifact": _run_artifact, "shape": _run_shape, "axis": _run_axis, "osc_irf": _run_osc_irf, "osc_irf_full": _run_osc_irf_full, "pfid": _run_pfid}[cfg["kind"]](cfg, rec)
+
+
+def _run_pfid(cfg, rec):
+    import sys
+
+    from harness import c07_pfid
+
+    c07_pfid.run(cfg, rec, sys.modules[__name__])
 
 
 def build_osc(n, val, order=None):
@@ -315,6 +333,12 @@ def _run_osc_irf_full(cfg, rec):
             ctx.assume(vals["f0"].e >= 0)
             ctx.assume(vals["f0"].e * W * 2 * zreal(0.03) * (t[1].e - t[0].e) < 1)  # below the folding frequency of the axis
             gaxis = np.array([1.0, 2.0]) if cfg["shifted"] else np.array([1.0])
+            # the window edges themselves (tau = +-5 sigma exactly) are outside the claim (measure zero; '<' vs '<=' there)
+            for gi_ in range(len(gaxis)):
+                for a_ in range(2):
+                    for g_ in range(cfg["ngauss"]):
+                        tau_ = t[a_].e - (vals[f"mu{g_}"].e - (vals[f"sh{gi_}"].e if cfg["shifted"] else 0))
+                        ctx.assume(tau_ != (5 if cfg["neg"] else -5) * vals[f"sig{g_}"].e)
             labels, matrix = mc.calculate_matrix(dm, gaxis, t)
         return labels, matrix, vals, t
 
@@ -608,6 +632,14 @@ def replay(data):
                 if not np.allclose(row, 0, atol=1e-12):
                     return True, (f"oscillation with Gaussian IRF (centre {v['mu']}, width {v['sig']}, shift {v['sh0'] if cfg['shifted'] else None}): at "
                                   f"t = {t[0]} (5.5 sigma before the effective IRF position {c_eff}) the columns are {row.tolist()}, expected 0")
+            elif cfg["kind"] == "pfid":
+                import sys
+
+                from harness import c07_pfid
+
+                bad, why = c07_pfid.float_case(cfg, rng, sys.modules[__name__])
+                if bad:
+                    return True, why
             elif cfg["kind"] == "osc_irf_full":
                 from scipy.special import erf as cerf
 
